@@ -57,7 +57,7 @@ def lit(l):
     raise ValueError("unknown literal %r" % (l,))
 
 
-def args_sdl(args):
+def args_sdl(args, hk=""):
     if not args:
         return ""
     parts = []
@@ -65,6 +65,7 @@ def args_sdl(args):
         s = "%s: %s" % (a["name"], typeref(a["type"]))
         if a.get("hasDefault"):
             s += " = " + lit(a["default"])
+        s += hk
         for d in a.get("dirs", []) or []:
             s += " " + dir_app(d)
         parts.append(s)
@@ -81,9 +82,14 @@ def dir_app(d):
 BUILTIN_SCALARS = {"String", "Int", "Boolean", "ID", "Float", "Date", "Time", "DateTime"}
 
 
-def sdl_exec(types, roots):
-    """SDL of an execution schema given as the JSON image of the TLA+ `Types` record."""
+def sdl_exec(types, roots, hooks=False):
+    """SDL of an execution schema given as the JSON image of the TLA+ `Types` record.
+    hooks=True attaches a pass-through counting directive @hk to every field definition,
+    argument definition, enum and enum value (C07: no hook may run for a refused document)."""
     out = []
+    hk = " @hk" if hooks else ""
+    if hooks:
+        out.append("directive @hk on FIELD_DEFINITION | ARGUMENT_DEFINITION | ENUM | ENUM_VALUE | INPUT_FIELD_DEFINITION | FIELD")
     implements = {}
     for tn, td in types.items():
         if td["kind"] == "INTERFACE":
@@ -96,7 +102,7 @@ def sdl_exec(types, roots):
                 out.append("scalar %s" % tn)
             continue
         if k == "ENUM":
-            out.append("enum %s { %s }" % (tn, " ".join(td["values"])))
+            out.append("enum %s%s { %s }" % (tn, hk, " ".join(v + hk for v in td["values"])))
             continue
         if k == "UNION":
             out.append("union %s = %s" % (tn, " | ".join(td["possibleSeq"])))
@@ -107,7 +113,7 @@ def sdl_exec(types, roots):
                 head += " implements " + " & ".join(implements[tn])
             fl = []
             for fn, fd in td["fields"].items():
-                fl.append("  %s%s: %s" % (fn, args_sdl(fd["args"]), typeref(fd["type"])))
+                fl.append("  %s%s: %s%s" % (fn, args_sdl(fd["args"], hk), typeref(fd["type"]), hk))
             out.append(head + " {\n" + "\n".join(fl) + "\n}")
             continue
         if k == "INPUT":
@@ -116,7 +122,7 @@ def sdl_exec(types, roots):
                 s = "  %s: %s" % (a["name"], typeref(a["type"]))
                 if a.get("hasDefault"):
                     s += " = " + lit(a["default"])
-                fl.append(s)
+                fl.append(s + hk)
             out.append("input %s {\n%s\n}" % (tn, "\n".join(fl)))
     r = []
     for k in ("query", "mutation", "subscription"):
